@@ -521,6 +521,7 @@ const (
 	c19evSent    = "ev:sent"    // delivery callback called
 	c19evSent2   = "ev:sent2"   // ... more than once
 	c19evTouched = "ev:lasttouched"
+	c19evPullOK  = "ev:pullok" // the pull's error is known nil
 )
 
 // c19pullAssigns finds `new, err := <call returning (snapshot, error)>` in root (nested
@@ -529,15 +530,19 @@ func c19pullAssigns(f *flow.Func, root ast.Node, snapT types.Type) []*ast.Assign
 	var pulls []*ast.AssignStmt
 	c19inspect(root, func(n ast.Node) bool {
 		as, ok := n.(*ast.AssignStmt)
-		if !ok || len(as.Lhs) != 2 || len(as.Rhs) != 1 {
+		if !ok || len(as.Rhs) != 1 {
 			return true
 		}
 		call, ok := ast.Unparen(as.Rhs[0]).(*ast.CallExpr)
 		if !ok {
 			return true
 		}
-		if tup, ok := f.Info.TypeOf(call).(*types.Tuple); ok && tup.Len() == 2 &&
+		if tup, ok := f.Info.TypeOf(call).(*types.Tuple); ok && len(as.Lhs) == 2 && tup.Len() == 2 &&
 			types.Identical(tup.At(0).Type(), snapT) && c19isErr(tup.At(1).Type()) {
+			pulls = append(pulls, as)
+		}
+		// positional results replaced by a small result struct {snapshot, error}
+		if len(as.Lhs) == 1 && c19resultStruct(f.Info.TypeOf(call), snapT) != nil {
 			pulls = append(pulls, as)
 		}
 		return true
@@ -545,8 +550,36 @@ func c19pullAssigns(f *flow.Func, root ast.Node, snapT types.Type) []*ast.Assign
 	return pulls
 }
 
+// c19resultStruct: a struct (same module) with exactly one snapshot field and one error field;
+// returns [snapshot field, error field].
+func c19resultStruct(t types.Type, snapT types.Type) []*types.Var {
+	if t == nil {
+		return nil
+	}
+	if p, ok := t.Underlying().(*types.Pointer); ok {
+		t = p.Elem()
+	}
+	st, ok := t.Underlying().(*types.Struct)
+	if !ok {
+		return nil
+	}
+	var d, e []*types.Var
+	for i := 0; i < st.NumFields(); i++ {
+		switch {
+		case types.Identical(st.Field(i).Type(), snapT):
+			d = append(d, st.Field(i))
+		case c19isErr(st.Field(i).Type()):
+			e = append(e, st.Field(i))
+		}
+	}
+	if len(d) != 1 || len(e) != 1 {
+		return nil
+	}
+	return []*types.Var{d[0], e[0]}
+}
+
 // c19levels: the unit (level 0) and the same-package functions it calls, breadth first.
-func c19levels(u *c19unit, depth int, stop types.Object) [][]*flow.Func {
+func c19levels(u *c19unit, depth int, stop map[types.Object]bool) [][]*flow.Func {
 	out := [][]*flow.Func{{u.f}}
 	seen := map[*ast.BlockStmt]bool{u.f.Body: true}
 	for d := 0; d < depth; d++ {
@@ -554,7 +587,7 @@ func c19levels(u *c19unit, depth int, stop types.Object) [][]*flow.Func {
 		for _, g := range out[d] {
 			for _, call := range calls(g.Body, true) {
 				fo, ok := g.Callee(call).(*types.Func)
-				if !ok || fo.Pkg() != g.Pkg.Types || types.Object(fo) == stop {
+				if !ok || fo.Pkg() != g.Pkg.Types || stop[types.Object(fo)] {
 					continue
 				}
 				fd := declOf(g.Pkg, fo)
@@ -582,8 +615,9 @@ func c19Units(c *core.Ctx, r *c19run) {
 func c19Unit(c *core.Ctx, r *c19run, u *c19unit) {
 	uf := u.f
 	// the pull: `new, err := <call returning (snapshot, error)>`, in the unit or the nearest helpers
-	levels := c19levels(u, 3, nil)
+	levels := c19levels(u, 3, map[types.Object]bool{})
 	var pull *ast.AssignStmt
+	var allPulls []*ast.AssignStmt // pull and its alternatives (same variables, exclusive branches)
 	var pullFn *flow.Func
 	var F []*flow.Func // the unit and its helpers, not descending into the pull
 	for lv, fs := range levels {
@@ -600,26 +634,74 @@ func c19Unit(c *core.Ctx, r *c19run, u *c19unit) {
 			}
 		}
 		if len(found) > 1 {
-			c.Undecide("R-C19-1", u.name+"|send only after a successful pull", pos(c, found[1]), "more than one pull in the delivering function / its helpers: shape not supported")
-			return
+			// alternative pulls into the same variables (`if prefix { new, err = pullPrefix(..) }
+			// else { new, err = pullKey(..) }`) are one pull with the choice made by the caller
+			same := true
+			for i, as := range found {
+				if len(as.Lhs) != 2 || len(found[0].Lhs) != 2 || in[i] != in[0] ||
+					c19cellOf(in[i], as.Lhs[0]) == nil || c19cellOf(in[i], as.Lhs[0]) != c19cellOf(in[0], found[0].Lhs[0]) ||
+					c19obj(in[i], as.Lhs[1]) == nil || c19obj(in[i], as.Lhs[1]) != c19obj(in[0], found[0].Lhs[1]) {
+					same = false
+				}
+			}
+			if !same {
+				c.Undecide("R-C19-1", u.name+"|send only after a successful pull", pos(c, found[1]), "more than one pull (into different variables) in the delivering function / its helpers: shape not supported")
+				return
+			}
 		}
-		if len(found) == 1 {
+		if len(found) >= 1 {
 			pull, pullFn = found[0], in[0]
+			allPulls = found
 			break
 		}
 	}
 	if pull == nil {
+		// a store read of a shape that is not recognised is not a missing pull
+		rd := &c19reads{c: c, may: map[*types.Func]int{}, sums: map[ast.Node]*c19sum{}, decls: map[*types.Func]*c19decl{}}
+		if rd.mayReadNode(uf.Info, u.body) {
+			c.Undecide("R-C19-1", u.name+"|send only after a successful pull", pos(c, u.sends[0]), "the delivering function reads the store, but not through a call returning (snapshot, error) or a {snapshot, error} struct: shape not supported")
+			return
+		}
 		c.Violate("R-C19-1", u.name+"|send only after a successful pull", pos(c, u.sends[0]),
 			"the function that delivers snapshots does not obtain (snapshot, error) from a pull: what is delivered is not a freshly read store state")
 		return
 	}
 	pullCall := ast.Unparen(pull.Rhs[0]).(*ast.CallExpr)
-	for _, fs := range c19levels(u, 3, pullFn.Callee(pullCall)) {
+	isPull := map[*ast.AssignStmt]bool{}
+	stop := map[types.Object]bool{}
+	for _, as := range allPulls {
+		isPull[as] = true
+		if po := pullFn.Callee(ast.Unparen(as.Rhs[0]).(*ast.CallExpr)); po != nil {
+			stop[po] = true
+		}
+	}
+	for _, fs := range c19levels(u, 3, stop) {
 		F = append(F, fs...)
 	}
-	r.pulls = append(r.pulls, c19pullSite{u: u, call: pullCall, f: pullFn})
-	newObj := c19cellOf(pullFn, pull.Lhs[0])
-	errObj := c19obj(pullFn, pull.Lhs[1])
+	var newObj, errObj types.Object
+	var errExpr ast.Expr
+	if len(pull.Lhs) == 2 {
+		newObj = c19cellOf(pullFn, pull.Lhs[0])
+		errObj = c19obj(pullFn, pull.Lhs[1])
+		errExpr = pull.Lhs[1]
+	} else {
+		// res := pull(..): the snapshot is res.<data field>, the error res.<error field>
+		rs := c19resultStruct(pullFn.Info.TypeOf(pullCall), r.snapT)
+		resVar := c19obj(pullFn, pull.Lhs[0])
+		if rs != nil && resVar != nil {
+			newObj = rs[0]
+			for _, g := range F {
+				ast.Inspect(g.Body, func(n ast.Node) bool {
+					if sel, ok := n.(*ast.SelectorExpr); ok && errExpr == nil && c19obj(g, sel.X) == resVar {
+						if sl := g.Info.Selections[sel]; sl != nil && sl.Obj() == types.Object(rs[1]) {
+							errExpr, errObj = sel, rs[1]
+						}
+					}
+					return true
+				})
+			}
+		}
+	}
 	if errObj == nil {
 		c.Violate("R-C19-1", u.name+"|send only after a successful pull", pos(c, pull),
 			"the error of the pull is discarded: after a failed read (etcd down, timeout) the empty/partial result is delivered as if it were the store's content")
@@ -629,7 +711,7 @@ func c19Unit(c *core.Ctx, r *c19run, u *c19unit) {
 		c.Violate("R-C19-1", u.name+"|send delivers the pulled snapshot", pos(c, pull), "the pulled snapshot is discarded")
 		return
 	}
-	errKey := uf.NilKey(pull.Lhs[1])
+	errKey := uf.NilKey(errExpr)
 
 	isSnap := func(o types.Object) bool {
 		v, ok := o.(*types.Var)
@@ -759,7 +841,7 @@ func c19Unit(c *core.Ctx, r *c19run, u *c19unit) {
 	// candidate comparisons: bool calls over two snapshot cells, in the unit or its helpers
 	var eqCalls []*ast.CallExpr
 	except := []types.Object{}
-	if po := pullFn.Callee(pullCall); po != nil {
+	for po := range stop {
 		except = append(except, po)
 	}
 	pmAll := map[ast.Node]ast.Node{}
@@ -809,6 +891,12 @@ func c19Unit(c *core.Ctx, r *c19run, u *c19unit) {
 	}
 	// a comparison counts if, when it was evaluated, it compared the previous with the new snapshot
 	sync := func(st *flow.State) {
+		switch st.Get(errKey) {
+		case flow.True:
+			st.Set(c19evPullOK, flow.True)
+		case flow.False:
+			st.Set(c19evPullOK, flow.False)
+		}
 		for _, e := range eqCalls {
 			if !st.Is(cmpKey(e), flow.True) {
 				continue
@@ -861,11 +949,12 @@ func c19Unit(c *core.Ctx, r *c19run, u *c19unit) {
 			sync(st)
 			switch s := n.(type) {
 			case *ast.AssignStmt:
-				if s == pull {
+				if isPull[s] {
 					for _, e := range eqCalls {
 						st.Set(cmpKey(e), flow.Unknown)
 					}
 					st.Set(c19evDiff, flow.Unknown)
+					st.Set(c19evPullOK, flow.Unknown)
 					setStatus(st, newObj, flow.True)
 					return
 				}
@@ -979,6 +1068,10 @@ func c19Unit(c *core.Ctx, r *c19run, u *c19unit) {
 	if res == nil {
 		return
 	}
+	for _, as := range allPulls {
+		pc := ast.Unparen(as.Rhs[0]).(*ast.CallExpr)
+		r.pulls = append(r.pulls, c19pullSite{u: u, call: pc, f: pullFn, states: res.At[pc]})
+	}
 	for _, e := range eqCalls {
 		if fo, ok := uf.Callee(e).(*types.Func); ok && validCmp[e] {
 			dup := false
@@ -1008,7 +1101,7 @@ func c19Unit(c *core.Ctx, r *c19run, u *c19unit) {
 		}
 		var bad *flow.State
 		for _, st := range sts {
-			if !st.Is(errKey, flow.True) {
+			if !st.Is(c19evPullOK, flow.True) {
 				bad = st
 				break
 			}
@@ -1066,7 +1159,7 @@ func c19Unit(c *core.Ctx, r *c19run, u *c19unit) {
 		if sent && status(st, lastObj) != flow.True {
 			stale = st
 		}
-		if !sent && st.Is(errKey, flow.True) && !st.Is(c19evDiff, flow.False) && (st.Is(c19evDiff, flow.True) || status(st, lastObj) != flow.False) {
+		if !sent && st.Is(c19evPullOK, flow.True) && !st.Is(c19evDiff, flow.False) && (st.Is(c19evDiff, flow.True) || status(st, lastObj) != flow.False) {
 			swallowed = st
 		}
 		if st.Is(c19evSent2, flow.True) {
